@@ -2,7 +2,8 @@
 # Offline setup: builds the harness (plain and -race) from files on disk and runs the
 # oracle self-test (refchess perft gate, curated corpus validity).
 export GOFLAGS=-mod=mod GOPROXY=off GOSUMDB=off GOTOOLCHAIN=local
-V=/verif
+V="$(cd "$(dirname "$0")" && pwd)"
+export VERIF_ROOT="$V"
 mkdir -p $V/build $V/evidence $V/run
 cd $V/harness || exit 2
 go build -tags verif -o $V/build/vh ./cmd/vh || exit 2
